@@ -7,6 +7,11 @@
 (*   op = "call"  : CALL with `value` to contract C<id> executing `body`,    *)
 (*                  or, when body = <<>> , a plain value transfer to `to`    *)
 (*   op = "pc"    : CALL of precompile method m naming account `who`         *)
+(*   op = "recall": CALL (non-empty calldata) re-entering contract `to` of the *)
+(*                  tree, which then executes the `alt` body of its call node *)
+(*   op = "create": (top level only) contract creation whose constructor is   *)
+(*                  `body`; the created contract N<id> gets no runtime code    *)
+(*   op = "selfdestruct": SELFDESTRUCT with beneficiary `to`                  *)
 (*   op = "sstore" | "revert" | "invalid" | "stop"                          *)
 (*   mode = "catch" (ignore the callee's failure) | "bubble" (revert too)   *)
 (*                                                                         *)
@@ -38,7 +43,15 @@ Pos(x) == BigSign(x) > 0
 MaxUint256 == "115792089237316195423570985008687907853269984665640564039457584007913129639935"
 
 \* name of the contract executing the body of call op o; of a named account in frame `self`
-ContractOf(o) == "C" \o ToString(o.id)
+ContractOf(o) == (IF o.op = "create" THEN "N" ELSE "C") \o ToString(o.id)
+HasBody(o) == o.op \in {"call", "create"} /\ o.body # <<>>
+
+\* the alt body of the call node whose contract is `name`, searched in the whole tree
+RECURSIVE AltIn(_, _)
+AltInOp(o, name) == IF HasBody(o) THEN (IF ContractOf(o) = name THEN o.alt
+                                        ELSE LET a == AltIn(o.body, name) IN IF a # <<>> THEN a ELSE AltIn(o.alt, name))
+                    ELSE <<>>
+AltIn(body, name) == IF body = <<>> THEN <<>> ELSE LET a == AltInOp(body[1], name) IN IF a # <<>> THEN a ELSE AltIn(Tail(body), name)
 Named(name, self) == IF name = "self" THEN self ELSE name
 ValName(i) == "V" \o ToString(i + 1)
 
@@ -134,40 +147,55 @@ SpendGrant(s, o, c, g) ==
 Flag(obs, frame, o) == LET k == "s" \o ToString(o.id) IN
                        IF frame \in DOMAIN obs /\ k \in DOMAIN obs[frame] THEN obs[frame][k] ELSE 0
 
-RECURSIVE IdealBody(_, _, _, _, _, _, _)
-\* r = [st, bad]: state and set of C04 problems found so far
-IdealOp(r, self, o, g, obs, operOf, topOk) ==
+RECURSIVE IdealBody(_, _, _, _, _, _, _, _)
+\* r = [st, bad, dead]: state, set of C04 problems found so far, self-destructed contracts
+\* SELFDESTRUCT: the balance goes to the beneficiary (to nobody when the beneficiary is the contract
+\* itself - the one sanctioned burn); the contract disappears at the end of the transaction
+IdealDestroy(r, self, ben) ==
+    LET s == r.st bal == s.bank[self] IN
+    [r EXCEPT !.st = IF ben = self THEN [s EXCEPT !.bank[self] = "0", !.supply = BigSub(@, bal)]
+                     ELSE IF ben \in Accts(s) THEN [s EXCEPT !.bank = Add(Sub(@, self, bal), ben, bal)]
+                     ELSE [s EXCEPT !.bank = Sub(@, self, bal)],
+              !.dead = @ \cup {self}]
+IdealOp(r, self, o, g, obs, operOf, topOk, root) ==
     LET s == r.st
         ok == IF self = g THEN topOk ELSE Flag(obs, self, o) = 2 IN
     CASE o.op = "pc" ->
            IF ~ok THEN r
            ELSE LET x == Named(o.who, self) IN
-                [st |-> SpendGrant(Effect(s, o, x, self, g, operOf), o, self, g),
-                 bad |-> r.bad \cup {[k |-> p, m |-> o.m, id |-> o.id] : p \in AuthProblems(s, o, x, self, g)}]
-      [] o.op = "call" ->
+                [r EXCEPT !.st = SpendGrant(Effect(s, o, x, self, g, operOf), o, self, g),
+                          !.bad = @ \cup {[k |-> p, m |-> o.m, id |-> o.id] : p \in AuthProblems(s, o, x, self, g)}]
+      [] o.op \in {"call", "create", "recall"} ->
            IF ~ok THEN r
-           ELSE LET tgt == IF o.body # <<>> THEN ContractOf(o) ELSE Named(o.to, self)
+           ELSE LET tgt  == IF HasBody(o) THEN ContractOf(o) ELSE Named(o.to, self)
+                    body == IF o.op = "recall" THEN AltInOp(root, tgt) ELSE o.body
                     s1 == [s EXCEPT !.bank = IF tgt \in Accts(s) THEN Add(Sub(@, self, o.value), tgt, o.value) ELSE Sub(@, self, o.value)]
-                IN IF o.body # <<>> THEN IdealBody([st |-> s1, bad |-> r.bad], tgt, o.body, g, obs, operOf, 1)
-                   ELSE [st |-> s1, bad |-> r.bad]
+                    s2 == IF o.op = "create" THEN [s1 EXCEPT !.nonce[tgt] = "1"] ELSE s1
+                IN IF body # <<>> THEN IdealBody([r EXCEPT !.st = s2], tgt, body, g, obs, operOf, 1, root)
+                   ELSE [r EXCEPT !.st = s2]
       [] o.op = "sstore" ->
            [r EXCEPT !.st.storage[self] = [@ EXCEPT !["s" \o ToString(o.id)] = 7]]
+      [] o.op = "selfdestruct" -> IdealDestroy(r, self, Named(o.to, self))
       [] OTHER -> r
 
-IdealBody(r, self, body, g, obs, operOf, i) ==
+IdealBody(r, self, body, g, obs, operOf, i, root) ==
     IF i > Len(body) THEN r
-    ELSE IdealBody(IdealOp(r, self, body[i], g, obs, operOf, TRUE), self, body, g, obs, operOf, i + 1)
+    ELSE LET r1 == IdealOp(r, self, body[i], g, obs, operOf, TRUE, root) IN
+         IF body[i].op = "selfdestruct" THEN r1      \* SELFDESTRUCT halts the frame
+         ELSE IdealBody(r1, self, body, g, obs, operOf, i + 1, root)
 
 \* storage a successful frame must show: (success + 1) for every call it made
-RECURSIVE ExpectFlags(_, _, _, _, _)
-ExpectFlags(st, self, body, obs, i) ==
+RECURSIVE ExpectFlags(_, _, _, _, _, _)
+ExpectFlags(st, self, body, obs, i, root) ==
     IF i > Len(body) THEN st
     ELSE LET o == body[i]
-             st1 == IF o.op \in {"pc", "call"}
+             st1 == IF o.op \in {"pc", "call", "recall"}
                     THEN [st EXCEPT ![self] = [@ EXCEPT !["s" \o ToString(o.id)] = Flag(obs, self, o)]] ELSE st
              st2 == IF o.op = "call" /\ o.body # <<>> /\ Flag(obs, self, o) = 2
-                    THEN ExpectFlags(st1, ContractOf(o), o.body, obs, 1) ELSE st1
-         IN ExpectFlags(st2, self, body, obs, i + 1)
+                    THEN ExpectFlags(st1, ContractOf(o), o.body, obs, 1, root)
+                    ELSE IF o.op = "recall" /\ Flag(obs, self, o) = 2
+                    THEN ExpectFlags(st1, o.to, AltInOp(root, o.to), obs, 1, root) ELSE st1
+         IN IF o.op = "selfdestruct" THEN st2 ELSE ExpectFlags(st2, self, body, obs, i + 1, root)
 
 \* e: the recorded transaction [top, pre, post, res, operOf]; the signer is "S"
 TxOk(e) == e.res.code = 0 /\ ~e.res.failed
@@ -175,24 +203,31 @@ Ideal(e) ==
     LET g == "S"
         base == [e.pre EXCEPT !.bank = Sub(@, g, e.res.fee), !.mods = Add(@, "feecollector", e.res.fee),
                               !.nonce[g] = IF e.res.code = 0 THEN BigAdd(@, "1") ELSE @]
-        r0 == [st |-> base, bad |-> {}]
+        r0 == [st |-> base, bad |-> {}, dead |-> {}]
     IN IF ~TxOk(e) THEN r0
-       ELSE LET r1 == IdealOp(r0, g, e.top, g, e.post.storage, e.operOf, TRUE)
-            IN IF e.top.op = "call" /\ e.top.body # <<>>
-               THEN [r1 EXCEPT !.st.storage = ExpectFlags(@, ContractOf(e.top), e.top.body, e.post.storage, 1)]
-               ELSE r1
+       ELSE LET r1 == IdealOp(r0, g, e.top, g, e.post.storage, e.operOf, TRUE, e.top)
+                r2 == IF HasBody(e.top)
+                      THEN [r1 EXCEPT !.st.storage = ExpectFlags(@, ContractOf(e.top), e.top.body, e.post.storage, 1, e.top)]
+                      ELSE r1
+            \* self-destructed contracts are gone at the end of the transaction: no code, no nonce, no storage
+            \* (what they recorded about their calls lives in the recorder contract and stays)
+            IN [r2 EXCEPT !.st.code = [c \in DOMAIN @ |-> IF c \in r2.dead THEN "no" ELSE @[c]],
+                          !.st.nonce = [c \in DOMAIN @ |-> IF c \in r2.dead THEN "0" ELSE @[c]],
+                          !.st.storage = [c \in DOMAIN @ |-> IF c \in r2.dead THEN [k \in DOMAIN @[c] |-> IF @[c][k] = 7 THEN 0 ELSE @[c][k]] ELSE @[c]]]
 
 ---------------------------------------------------------------------------
 (* classification of a scenario (the `class` of a violation signature) *)
-RECURSIVE HasPc(_), RevertedWithPc(_, _, _), FirstPc(_)
-HasPcOp(o) == o.op = "pc" \/ (o.op = "call" /\ HasPc(o.body))
+RECURSIVE HasPc(_), RevertedWithPc(_, _, _, _), FirstPc(_)
+HasPcOp(o) == o.op = "pc" \/ (HasBody(o) /\ (HasPc(o.body) \/ HasPc(o.alt)))
 HasPc(body) == \E i \in 1..Len(body) : HasPcOp(body[i])
 \* some frame that made a precompile call was reverted although the transaction succeeded
-RevertedWithPc(self, body, obs) ==
+RevertedWithPc(self, body, obs, root) ==
     \E i \in 1..Len(body) : LET o == body[i] IN
-        o.op = "call" /\ o.body # <<>> /\
-        ((Flag(obs, self, o) = 1 /\ HasPc(o.body)) \/ (Flag(obs, self, o) = 2 /\ RevertedWithPc(ContractOf(o), o.body, obs)))
-FirstPcOp(o) == IF o.op = "pc" THEN <<o>> ELSE IF o.op = "call" THEN FirstPc(o.body) ELSE <<>>
+        \/ (o.op = "call" /\ o.body # <<>> /\
+             ((Flag(obs, self, o) = 1 /\ HasPc(o.body)) \/ (Flag(obs, self, o) = 2 /\ RevertedWithPc(ContractOf(o), o.body, obs, root))))
+        \/ (o.op = "recall" /\
+             ((Flag(obs, self, o) = 1 /\ HasPc(AltInOp(root, o.to))) \/ (Flag(obs, self, o) = 2 /\ RevertedWithPc(o.to, AltInOp(root, o.to), obs, root))))
+FirstPcOp(o) == IF o.op = "pc" THEN <<o>> ELSE IF HasBody(o) THEN (LET f == FirstPc(o.body) IN IF f # <<>> THEN f ELSE FirstPc(o.alt)) ELSE <<>>
 FirstPc(body) == IF body = <<>> THEN <<>> ELSE LET f == FirstPcOp(body[1]) IN IF f # <<>> THEN f ELSE FirstPc(Tail(body))
 
 Shape(e) ==
@@ -200,21 +235,29 @@ Shape(e) ==
         pcs == FirstPcOp(top)
         m   == IF pcs = <<>> THEN "none" ELSE pcs[1].m
         who == IF pcs = <<>> THEN "-" ELSE pcs[1].who
-    IN m \o "|caller=" \o (IF top.op = "pc" THEN "eoa" ELSE "contract")
+    IN m \o "|caller=" \o (IF top.op = "pc" THEN "eoa" ELSE IF top.op = "create" THEN "constructor" ELSE "contract")
          \o ",named=" \o (IF who = "S" THEN "signer" ELSE IF who = "self" THEN "caller" ELSE IF who = "-" THEN "-" ELSE "third")
          \o ",wd=" \o (IF e.pre.wd["S"] = "S" THEN "self" ELSE "other")
-         \o ",value=" \o (IF top.op = "call" /\ ~BigIsZero(top.value) THEN "yes" ELSE "no")
+         \o ",value=" \o (IF top.op \in {"call", "create"} /\ ~BigIsZero(top.value) THEN "yes" ELSE "no")
 
 HasRevertedPc(e) == \/ (~TxOk(e) /\ HasPcOp(e.top))
-                    \/ (TxOk(e) /\ e.top.op = "call" /\ RevertedWithPc(ContractOf(e.top), e.top.body, e.post.storage))
+                    \/ (TxOk(e) /\ HasBody(e.top) /\ RevertedWithPc(ContractOf(e.top), e.top.body, e.post.storage, e.top))
+\* some frame of a successful transaction reverted at all (EVM-side state must be undone as well)
+RECURSIVE RevertedAny(_, _, _, _)
+RevertedAny(self, body, obs, root) ==
+    \E i \in 1..Len(body) : LET o == body[i] IN
+        \/ (o.op = "call" /\ o.body # <<>> /\ (Flag(obs, self, o) = 1 \/ (Flag(obs, self, o) = 2 /\ RevertedAny(ContractOf(o), o.body, obs, root))))
+        \/ (o.op = "recall" /\ (Flag(obs, self, o) = 1 \/ (Flag(obs, self, o) = 2 /\ RevertedAny(o.to, AltInOp(root, o.to), obs, root))))
+HasRevertedFrame(e) == ~TxOk(e) \/ (HasBody(e.top) /\ RevertedAny(ContractOf(e.top), e.top.body, e.post.storage, e.top))
 
 \* some precompile call in a frame that was not reverted reported failure to its caller
-RECURSIVE FailedPc(_, _, _)
-FailedPc(self, body, obs) ==
+RECURSIVE FailedPc(_, _, _, _)
+FailedPc(self, body, obs, root) ==
     \E i \in 1..Len(body) : LET o == body[i] IN
         \/ (o.op = "pc" /\ Flag(obs, self, o) = 1)
-        \/ (o.op = "call" /\ o.body # <<>> /\ Flag(obs, self, o) = 2 /\ FailedPc(ContractOf(o), o.body, obs))
-HasFailedPc(e) == TxOk(e) /\ e.top.op = "call" /\ e.top.body # <<>> /\ FailedPc(ContractOf(e.top), e.top.body, e.post.storage)
+        \/ (o.op = "call" /\ o.body # <<>> /\ Flag(obs, self, o) = 2 /\ FailedPc(ContractOf(o), o.body, obs, root))
+        \/ (o.op = "recall" /\ Flag(obs, self, o) = 2 /\ FailedPc(o.to, AltInOp(root, o.to), obs, root))
+HasFailedPc(e) == TxOk(e) /\ HasBody(e.top) /\ FailedPc(ContractOf(e.top), e.top.body, e.post.storage, e.top)
 
 \* which fields of the projected state differ between the real post-state and Ideal
 BalanceFields == {"bank", "mods", "supply"}
@@ -286,9 +329,21 @@ Mirror(ms, o, x, c, pre) ==
 \* the intended design: after a precompile wrote to the bank, every loaded balance is re-read
 Refresh(ms) == [ms EXCEPT !.cache = [a \in DOMAIN @ |-> IF @[a] = "-" THEN "-" ELSE ms.s.bank[a]]]
 
-RECURSIVE MBody(_, _, _, _, _, _)
+RECURSIVE MBody(_, _, _, _, _, _, _)
+\* the journal is rolled back; what was written to the Cosmos store is not: Cosmos state, and the
+\* balances and storage that a Flush inside the frame already wrote for accounts that are no longer
+\* dirty after the roll-back.  (The success flags live in the recorder contract, which is written again
+\* by every later record, so they are always rolled back: values 1 and 2 are flags, 7 is an SSTORE.)
+RolledBack(m0, r) ==
+    IF "no_cosmos_revert" \in Defects /\ r.ms.nflush # m0.nflush
+    THEN [m0 EXCEPT !.s = [r.ms.s EXCEPT !.storage =
+                 [cc \in DOMAIN @ |-> IF cc \in m0.dirty THEN m0.s.storage[cc]
+                                       ELSE [k \in DOMAIN @[cc] |-> IF r.ms.fst[cc][k] = 7 THEN 7 ELSE m0.s.storage[cc][k]]]],
+                      !.fst = r.ms.fst, !.nflush = r.ms.nflush]
+    ELSE m0
+
 \* returns [ms, ok]: ok = FALSE when the frame reverted
-MOp(ms, self, o, g, operOf) ==
+MOp(ms, self, o, g, operOf, root) ==
     CASE o.op = "pc" ->
            LET x == Named(o.who, self)
                m0 == Load(Load(ms, self), "pc")
@@ -306,47 +361,62 @@ MOp(ms, self, o, g, operOf) ==
               ELSE LET s2 == SpendGrant(Effect(m1.s, o, x, self, g, operOf), o, self, g)
                        m2 == [m1 EXCEPT !.s = s2]
                    IN [ms |-> IF "stale_overwrite" \in Defects THEN Mirror(m2, o, x, self, m1.s) ELSE Refresh(m2), ok |-> TRUE]
-      [] o.op = "call" ->
-           LET tgt == IF o.body # <<>> THEN ContractOf(o) ELSE Named(o.to, self)
-               m0 == Load(Load(ms, self), tgt)
+      [] o.op \in {"call", "create", "recall"} ->
+           LET tgt  == IF HasBody(o) THEN ContractOf(o) ELSE Named(o.to, self)
+               body == IF o.op = "recall" THEN AltInOp(root, tgt) ELSE o.body
+               m00 == Load(Load(ms, self), tgt)
+               \* evm.Create bumps the creator's nonce through the StateDB: the creator is journal-dirty
+               m0 == IF o.op = "create" THEN [m00 EXCEPT !.dirty = @ \cup {self}] ELSE m00
            IN IF BigLT(m0.cache[self], o.value) THEN [ms |-> m0, ok |-> FALSE]
               ELSE LET m1 == IF BigIsZero(o.value) THEN m0 ELSE Touch(Touch(m0, self, BigNeg(o.value)), tgt, o.value)
-                   IN IF o.body = <<>> THEN [ms |-> m1, ok |-> TRUE]
-                      ELSE LET r == MBody(m1, tgt, o.body, g, operOf, 1) IN
-                           IF r.ok THEN r
-                           \* the journal is rolled back; what was written to the Cosmos store is not: Cosmos
-                           \* state, and the balances and storage that a Flush inside the frame already wrote
-                           \* for accounts that are no longer dirty after the roll-back
-                           ELSE [ms |-> IF "no_cosmos_revert" \in Defects /\ r.ms.nflush # m0.nflush
-                                        THEN [m0 EXCEPT !.s = [r.ms.s EXCEPT !.storage =
-                                                   [cc \in DOMAIN @ |-> IF cc \in m0.dirty THEN m0.s.storage[cc] ELSE r.ms.fst[cc]]],
-                                                        !.fst = r.ms.fst, !.nflush = r.ms.nflush]
-                                        ELSE m0,
-                                 ok |-> FALSE]
+                   IN IF body = <<>> THEN [ms |-> m1, ok |-> TRUE]
+                      ELSE LET r == MBody(m1, tgt, body, g, operOf, 1, root) IN
+                           IF r.ok THEN (IF o.op = "create" THEN [r EXCEPT !.ms.s.nonce[tgt] = "1", !.ms.dirty = @ \cup {tgt}] ELSE r)
+                           ELSE [ms |-> RolledBack(m0, r), ok |-> FALSE]
       [] o.op = "sstore" -> [ms |-> [Load(ms, self) EXCEPT !.s.storage[self] = [@ EXCEPT !["s" \o ToString(o.id)] = 7], !.dirty = @ \cup {self}], ok |-> TRUE]
+      [] o.op = "selfdestruct" ->
+           \* statedb.Suicide: the balance is added to the beneficiary, the object is marked and zeroed
+           LET ben == Named(o.to, self)
+               m0  == Load(Load(ms, self), ben)
+               bal == m0.cache[self]
+               m1  == IF ben = self \/ ben \notin DOMAIN m0.cache THEN m0 ELSE Touch(m0, ben, bal)
+           IN [ms |-> [m1 EXCEPT !.cache[self] = "0", !.dirty = @ \cup {self}, !.dead = @ \cup {self}], ok |-> TRUE]
       [] o.op \in {"revert", "invalid"} -> [ms |-> ms, ok |-> FALSE]
       [] OTHER -> [ms |-> ms, ok |-> TRUE]
 
-MBody(ms, self, body, g, operOf, i) ==
+MBody(ms, self, body, g, operOf, i, root) ==
     IF i > Len(body) THEN [ms |-> ms, ok |-> TRUE]
     ELSE LET o == body[i]
-             r == MOp(ms, self, o, g, operOf)
-             \* the executing contract records success + 1 for its calls
-             rec == IF o.op \in {"pc", "call"} /\ self # g
-                    THEN [Load(r.ms, self) EXCEPT !.s.storage[self] = [@ EXCEPT !["s" \o ToString(o.id)] = IF r.ok THEN 2 ELSE 1],
-                                      !.dirty = @ \cup {self}] ELSE r.ms
+             r == MOp(ms, self, o, g, operOf, root)
+             \* the executing contract records success + 1 for its calls (in the recorder contract)
+             rec == IF o.op \in {"pc", "call", "recall"} /\ self # g
+                    THEN [r.ms EXCEPT !.s.storage[self] = [@ EXCEPT !["s" \o ToString(o.id)] = IF r.ok THEN 2 ELSE 1]] ELSE r.ms
          IN IF o.op \in {"revert", "invalid"} THEN [ms |-> ms, ok |-> FALSE]
-            ELSE IF ~r.ok /\ o.op \in {"pc", "call"} /\ o.mode = "bubble" /\ self # g THEN [ms |-> ms, ok |-> FALSE]
-            ELSE MBody(rec, self, body, g, operOf, i + 1)
+            ELSE IF o.op = "selfdestruct" THEN r
+            ELSE IF ~r.ok /\ o.op \in {"pc", "call", "recall"} /\ o.mode = "bubble" /\ self # g THEN [ms |-> ms, ok |-> FALSE]
+            ELSE MBody(rec, self, body, g, operOf, i + 1, root)
+
+\* final commit: dirty accounts are written; self-destructed ones are deleted (their bank balance,
+\* whatever it is by then, is burned; storage, code and nonce go)
+FlushFinal(ms) ==
+    LET m1 == Flush([ms EXCEPT !.dirty = @ \ ms.dead])
+        burnt == FoldSet(LAMBDA a, acc : BigAdd(acc, m1.s.bank[a]), "0", ms.dead)
+    IN [m1.s EXCEPT !.bank = [a \in DOMAIN @ |-> IF a \in ms.dead THEN "0" ELSE @[a]],
+                    !.supply = BigSub(@, burnt),
+                    !.code = [a \in DOMAIN @ |-> IF a \in ms.dead THEN "no" ELSE @[a]],
+                    !.nonce = [a \in DOMAIN @ |-> IF a \in ms.dead THEN "0" ELSE @[a]],
+                    !.storage = [c \in DOMAIN @ |-> IF c \in ms.dead THEN [k \in DOMAIN @[c] |-> IF @[c][k] = 7 THEN 0 ELSE @[c][k]] ELSE @[c]]]
 
 \* the whole transaction as the code executes it
+MStart(pre, feeMax) ==
+    LET g == "S"
+        s0 == [pre EXCEPT !.bank = Sub(@, g, feeMax), !.mods = Add(@, "feecollector", feeMax), !.nonce[g] = BigAdd(@, "1")]
+    IN [s |-> s0, cache |-> [a \in Accts(s0) |-> "-"], dirty |-> {}, dead |-> {}, fst |-> s0.storage, nflush |-> 0]
 MTx(e) ==
     LET g == "S"
-        s0 == [e.pre EXCEPT !.bank = Sub(@, g, e.res.feeMax), !.mods = Add(@, "feecollector", e.res.feeMax),
-                            !.nonce[g] = BigAdd(@, "1")]
-        ms0 == [s |-> s0, cache |-> [a \in Accts(s0) |-> "-"], dirty |-> {}, fst |-> s0.storage, nflush |-> 0]
-        r == MOp(ms0, g, e.top, g, e.operOf)
+        ms0 == MStart(e.pre, e.res.feeMax)
+        r == MOp(ms0, g, e.top, g, e.operOf, e.top)
         refund == BigSub(e.res.feeMax, e.res.fee)
         fin(s) == [s EXCEPT !.bank = Add(@, g, refund), !.mods = Sub(@, "feecollector", refund)]
-    IN IF r.ok THEN fin(Flush(r.ms).s) ELSE fin(s0)
+    IN IF r.ok THEN fin(FlushFinal(r.ms)) ELSE fin(ms0.s)
 =============================================================================
